@@ -3,12 +3,45 @@
 EXTENDS MC_Store
 
 \* simulation with the action history carried along: every state TLC evaluates at the final
-\* level is a complete behaviour, printed as one line of action records
+\* level is a complete behaviour, printed as one line of action records.
+\*
+\* TLC's simulator chooses uniformly among all successor STATES, so an action with many
+\* parameter combinations (a two-item batch) crowds out the ones with few (a flush).  The
+\* behaviours are therefore generated in two phases per step: first an action KIND is drawn
+\* (maintenance kinds carry more weight), then one enabled instance of that kind is taken.
+\* The set of behaviours is the same as that of Next; only the sampling distribution changes.
 CONSTANT SimDepth
-VARIABLE hist
-SimInit == Init /\ hist = <<>>
-SimNext == Next /\ hist' = Append(hist, last')
-SimSpec == SimInit /\ [][SimNext]_<<vars, hist>>
-ExportHist == TLCGet("level") = SimDepth => PrintT(<<"BEHAVIOUR", ToJson(hist)>>)
+VARIABLES hist, pick
+
+OfKind(k) ==
+    CASE k = "ks"      -> \/ \E n \in Names : CreateKeyspace(n)
+                          \/ \E n \in Names, b \in BOOLEAN : DeleteKeyspace(n, b)
+                          \/ \E id \in Ids : DropHandle(id)
+      [] k = "write"   -> \E n \in Names, kk \in Keys, d \in BOOLEAN : Write(n, kk, d)
+      [] k = "batch"   -> \E n1, n2 \in Names, k1, k2 \in Keys, d1, d2 \in BOOLEAN : BatchCommit(n1, k1, d1, n2, k2, d2)
+      [] k = "clear"   -> \E n \in Names : Clear(n)
+      [] k = "ingest"  -> \E n \in Names, ks \in SUBSET Keys, tb \in SUBSET Keys : Ingest(n, ks, tb)
+      [] k = "rotate"  -> \E n \in Names : Rotate(n)
+      [] k = "flush"   -> \E b \in BOOLEAN : WorkerFlush(b)
+      [] k = "compact" -> \E n \in Names, i, j \in 1..4 : Compact(n, i, j)
+      [] k = "persist" -> \E m \in {"Buffer", "SyncData", "SyncAll"} : Persist(m)
+      [] k = "view"    -> OpenView \/ (\E w \in views : CloseView(w)) \/ TrackerGC
+      [] k = "reopen"  -> CloseReopen
+
+\* <<kind, weight index>>
+Kinds == {<<"ks", 1>>, <<"write", 1>>, <<"write", 2>>, <<"write", 3>>, <<"batch", 1>>, <<"batch", 2>>,
+          <<"clear", 1>>, <<"ingest", 1>>, <<"rotate", 1>>, <<"rotate", 2>>, <<"flush", 1>>, <<"flush", 2>>,
+          <<"flush", 3>>, <<"compact", 1>>, <<"compact", 2>>, <<"persist", 1>>, <<"view", 1>>, <<"reopen", 1>>}
+NoPick == <<"none", 0>>
+
+SimInit == Init /\ hist = <<>> /\ pick = NoPick
+SimNext ==
+    \/ /\ pick = NoPick
+       /\ \E k \in Kinds : ENABLED OfKind(k[1]) /\ pick' = k
+       /\ UNCHANGED <<vars, hist>>
+    \/ /\ pick # NoPick /\ OfKind(pick[1])
+       /\ hist' = Append(hist, last') /\ pick' = NoPick
+SimSpec == SimInit /\ [][SimNext]_<<vars, hist, pick>>
+ExportHist == (TLCGet("level") = SimDepth /\ hist # <<>>) => PrintT(<<"BEHAVIOUR", ToJson(hist)>>)
 
 =============================================================================
